@@ -27,3 +27,10 @@ mod h_setters;
 mod h_builder;
 #[cfg(kani)]
 mod h_big;
+#[cfg(kani)]
+mod h_builder2;
+#[cfg(kani)]
+mod h_link;
+// pool harnesses need the verification hook of /repo (a list-based map): the whole harness crate is built with the cfg
+#[cfg(all(kani, julianschmid_etherparse_verif))]
+mod h_pool;
